@@ -52,7 +52,7 @@ def valid(row):
     return n_universe <= 2          # every neq/gt/lt operand is enumerated by the library's own loops (5 paths each)
 
 
-HEAVY_BUDGET = 2        # quick: at most this many path-multiplying fields per cross-field row (thorough: 4)
+HEAVY_BUDGET = 2        # quick: at most this many path-multiplying fields per cross-field row (thorough: 3)
 
 
 def cheap(row):
@@ -62,6 +62,12 @@ def cheap(row):
                      if row[side + k].startswith("groupm:") or row[side + k] in ("wild:0.0.1.3", "wild:128.0.0.1", "wild:0.0.0.1"))
     two_member = sum(1 for side in ("t", "b") for k in ("sa", "da") if "+" in row[side + k])
     heavy_port = sum(1 for side in ("t", "b") for k in ("sp", "dp") if row[side + k] in ("neq1", "gt", "lt", "range", "eq2"))
+    if HEAVY_BUDGET > 2:
+        # thorough: weighted budget - an operand enumerated over the port universe (gt/lt/neq) and a two-member group count double
+        # (measured: rows with three of those took 200-500 s each and dominated the tier)
+        uni = sum(1 for side in ("t", "b") for k in ("sp", "dp") if row[side + k] in ("neq1", "gt", "lt"))
+        return (valid(row) and heavy_addr <= 2 and two_member <= 1 and heavy_port <= 2
+                and heavy_addr + heavy_port + uni + two_member <= HEAVY_BUDGET + 1)
     return valid(row) and heavy_addr <= 2 and two_member <= 1 and heavy_port <= 2 and heavy_addr + heavy_port <= HEAVY_BUDGET
 
 
@@ -85,7 +91,7 @@ def rows(t, seed, groups=True, candidates=30, bias_true=True):
     (top any/ip/no port covers everything, so the field alone decides the answer); (2) a t-way covering array across
     fields over cheaper representative values, each row doubled by a same-action / covering-protocol twin."""
     global HEAVY_BUDGET
-    HEAVY_BUDGET = 2 if t <= 2 else 4
+    HEAVY_BUDGET = 2 if t <= 2 else 3
     ds = dims(groups)
     out = []
     n = 0
